@@ -1541,6 +1541,131 @@ func (w *world) twoProofsScript() {
 	}
 }
 
+// leaderPrepareAheadScript (member 1 Byzantine, leader of view 1): while the correct members are still in view 0 it sends
+// them its own PREPARE for view 1 and the block it will propose there - a PREPARE the leader of its view may never
+// send. The members then vote for view 1, adopt its NEW_VIEW, get prepared on genuine PREPAREs (the COMMITs are lost),
+// time out again and vote for view 2 with their prepared proofs. The correct leader of view 2 must count those votes
+// (C11: nothing a Byzantine member fed a correct node may make its later output unacceptable).
+func (w *world) leaderPrepareAheadScript() {
+	for _, n := range w.honest {
+		w.sync(n, nil)
+	}
+	w.pool = nil // the proposal of view 0 is lost
+	b := &aBlock{Height: 1, Id: 2999601}
+	for _, id := range []uint64{0, 2, 3} {
+		w.inject(w.byId[id], &aMsg{Kind: "P", Ref: aRef{2, worldInst, 1, 1, b.Id}, Snd: aSig{1, true}}, "byz-P-of-the-next-leader-ahead-of-its-view")
+	}
+	for _, id := range []uint64{0, 2, 3} {
+		w.election(w.byId[id], 1, 0)
+	}
+	var votes []aVote
+	seen := map[uint64]bool{}
+	for _, m := range w.history {
+		if m.Kind == "VC" && m.Vote.Height == 1 && m.Vote.View == 1 && !seen[m.Vote.Snd.Id] && m.Vote.Snd.Ok {
+			votes = append(votes, cloneVote(*m.Vote))
+			seen[m.Vote.Snd.Id] = true
+		}
+	}
+	if len(votes) < 3 {
+		w.rep.count("world:directed-leader-prepare-ahead-setup-failed")
+		return
+	}
+	w.pool = nil
+	nv := &aMsg{Kind: "NV", NVType: 4, NVInst: worldInst, NVHeight: 1, NVView: 1, Votes: votes, Snd: aSig{1, true},
+		Ref: aRef{1, worldInst, 1, 1, b.Id}, PPSnd: aSig{1, true}, Block: b}
+	for _, id := range []uint64{0, 2, 3} {
+		w.inject(w.byId[id], nv.clone(), "byz-NV")
+	}
+	drain := func() {
+		for k := 0; k < 80 && len(w.pool) > 0; k++ {
+			p := w.pool[0]
+			w.pool = w.pool[1:]
+			if p.msg.Kind == "C" || w.byz[p.to] {
+				continue // the COMMITs stay lost
+			}
+			w.deliverG(w.byId[p.to], p.msg, p.raw, p.genuine)
+		}
+	}
+	drain()
+	for _, id := range []uint64{0, 3, 2} {
+		w.election(w.byId[id], 1, 1)
+	}
+	drain()
+}
+
+// liftedProofScript (member 3 Byzantine, leader of view 3): members 1 and 2 PREPARE the block A of view 0, nobody gets
+// prepared on it; view 1 elects member 1, whose fresh block B is prepared by everybody and committed by member 2 alone.
+// Members 0 and 1 time out through views 1, 2, 3 and vote for view 4 with their proofs of (view 1, B). Member 3 votes
+// for view 4 with a "proof" made of its own PREPREPARE signature over (view 3, A) and the genuine PREPAREs over
+// (view 0, A): two different views, no proof. If the leader of view 4 counted it, A would be the highest proof, be
+// re-proposed and committed by members 0 and 1 next to B (C01, C08).
+func (w *world) liftedProofScript() {
+	for _, n := range w.honest {
+		w.sync(n, nil)
+	}
+	w.take(1, "PP", 0)
+	w.take(2, "PP", 0)
+	var a uint64
+	for _, m := range w.history {
+		if m.Kind == "PP" && m.Ref.View == 0 {
+			a = m.Ref.Hash
+		}
+	}
+	w.pool = nil // the PREPAREs over A reach only the Byzantine member
+	for _, id := range []uint64{0, 2, 1} {
+		w.election(w.byId[id], 1, 0)
+	}
+	w.takeV(1, "VC", 0, 1)
+	w.takeV(1, "VC", 2, 1)
+	w.takeV(0, "NV", 1, 1)
+	w.takeV(2, "NV", 1, 1)
+	w.takeV(0, "P", 2, 1)
+	w.takeV(1, "P", 0, 1)
+	w.takeV(1, "P", 2, 1)
+	w.takeV(2, "P", 0, 1)
+	w.takeV(2, "C", 0, 1)
+	w.takeV(2, "C", 1, 1)
+	w.pool = nil
+	if a == 0 || !w.byId[2].hasCommitted(1) || w.byId[0].hasCommitted(1) || w.byId[1].hasCommitted(1) {
+		w.rep.count("world:directed-lifted-proof-setup-failed")
+		return
+	}
+	for v := uint64(1); v <= 3; v++ {
+		for _, id := range []uint64{0, 1} {
+			w.election(w.byId[id], 1, v)
+		}
+		if v < 3 {
+			w.pool = nil
+		}
+	}
+	w.takeV(0, "VC", 1, 4)
+	w.pool = nil
+	lifted := &aProof{PPRef: aRef{1, worldInst, 1, 3, a}, PPSnd: aSig{3, true}, PRef: aRef{2, worldInst, 1, 0, a}, PSnds: []aSig{{1, true}, {2, true}}}
+	w.inject(w.byId[0], &aMsg{Kind: "VC", Vote: &aVote{5, worldInst, 1, 4, lifted, aSig{3, true}}, Block: w.blockOfHash(a)}, "byz-vote-with-proof-lifted-to-its-own-view")
+	drain := func() {
+		for k := 0; k < 80 && len(w.pool) > 0; k++ {
+			p := w.pool[0]
+			w.pool = w.pool[1:]
+			if w.byz[p.to] || p.to == 2 {
+				continue
+			}
+			w.deliverG(w.byId[p.to], p.msg, p.raw, p.genuine)
+		}
+	}
+	drain()
+	// the Byzantine member supports whatever was proposed in view 4
+	for _, m := range append([]*aMsg{}, w.history...) {
+		if m.Kind == "NV" && m.NVView == 4 {
+			for _, to := range []uint64{0, 1} {
+				w.inject(w.byId[to], &aMsg{Kind: "P", Ref: aRef{2, worldInst, 1, 4, m.Ref.Hash}, Snd: aSig{3, true}}, "byz-P")
+				w.inject(w.byId[to], &aMsg{Kind: "C", Ref: aRef{3, worldInst, 1, 4, m.Ref.Hash}, Snd: aSig{3, true}, ShareOk: true}, "byz-C")
+			}
+			break
+		}
+	}
+	drain()
+}
+
 func (w *world) kf1ForkScript() {
 	for _, n := range w.honest {
 		w.sync(n, nil)
